@@ -22,7 +22,7 @@ RULE = (
     "per stratum are checked for the triangle inequality. A second family without ties: deterministic Weyl-"
     "sequence diagrams of 48..96 (thorough ..250) generic points, ALL ordered pairs against reference values "
     "from an independent threshold search (scipy bipartite matching) / assignment, same variants, ALL triples; "
-    "per stratum are checked for the triangle inequality. Replication oracle: d_B(kS,kT)=d_B(S,T), "
+    "A third family with closed-form values: chains of 400..650 (thorough ..1200) long bars against their translates (deep alternating-path searches in the matching routine). Replication oracle: d_B(kS,kT)=d_B(S,T), "
     "W(kS,kT)=k*W(S,T) with d(S,T) certified by brute force. state = one ordered pair of family "
     "members; transition = one persim distance call; non-trivial = pair of different diagrams with "
     ">= 50 points in one of them, or a tight triangle (equality) among distinct diagrams."
@@ -237,6 +237,40 @@ def members(tier):
     return out
 
 
+# ---- structured large diagrams with closed-form distances -----------------------------------------
+# chain: n long bars (i*gap, i*gap + H) against the same bars moved by (dx, dy): every point is matched to
+# its own copy (all other pairings and the diagonal are far more expensive), so d_B = max(|dx|,|dy|) and
+# W = n*sqrt(dx^2+dy^2).  Long alternating paths: the matching routine needs deep searches here.
+CHAINS = {"quick": [(500, 1.0, 1000.0, 0.6, 0.6), (400, 1.0, 50.0, 0.25, -0.4), (650, 0.5, 2000.0, 0.2, 0.1)],
+          "thorough": [(500, 1.0, 1000.0, 0.6, 0.6), (400, 1.0, 50.0, 0.25, -0.4), (650, 0.5, 2000.0, 0.2, 0.1), (900, 1.0, 1000.0, 0.6, 0.6), (1200, 2.0, 5000.0, 0.9, 0.3)]}
+
+
+def chain_laws(ctx, n, gap, H, dx, dy):
+    case = {"kind": "chain", "n": n, "gap": gap, "H": H, "dx": dx, "dy": dy}
+    bad = lambda sig, msg, obs=None, exp=None: ctx.violation(sig, msg, observed=obs, expected=exp, case=case)  # noqa: E731
+    X = [[i * gap, i * gap + H] for i in range(n)]
+    Y = [[b + dx, d + dy] for b, d in X]
+    ctx.state(("chain", n, gap, H, dx, dy))
+    ctx.nontriv("structured_chain_%d_points" % n, key=("chain", n, gap, H, dx, dy))
+    rb, rw = max(abs(dx), abs(dy)), n * math.hypot(dx, dy)
+    for what, A, B in (("(X,Y)", X, Y), ("(Y reversed, X rotated)", Y[::-1], X[n // 3:] + X[:n // 3])):
+        b, w = dists(ctx, A, B)
+        ctx.valid(2)
+        if not (is_num(b) and abs(float(b) - rb) <= 1e-9 * max(1.0, H)):
+            bad("bottleneck-value", "bottleneck of a %d-point chain and its translate %s is not max(|dx|,|dy|)" % (n, what), b, rb)
+        if not (is_num(w) and abs(float(w) - rw) <= 1e-9 * n * max(1.0, H)):
+            bad("wasserstein-value", "Wasserstein of a %d-point chain and its translate %s is not n*|shift|" % (n, what), w, rw)
+    b0, w0 = dists(ctx, X, X[::-1])
+    ctx.valid()
+    if b0 != 0.0 or abs(w0) > WTOL:
+        bad("self-distance", "distance of a %d-point chain to its reversal is not 0" % n, [b0, w0], 0)
+    be, we = dists(ctx, [], Y)
+    ctx.valid()
+    if abs(be - (H + dy - dx) / 2.0) > 1e-9 * H or abs(we - n * (H + dy - dx) / math.sqrt(2.0)) > 1e-9 * n * H:
+        bad("vs-empty", "distance of a chain to the empty diagram is not max persistence/2 resp. total persistence/sqrt2", [be, we])
+    ctx.outcome(("chain", n))
+
+
 def run_shard(ctx):
     tier = ctx.tier
     strata = STRATA[tier]
@@ -259,9 +293,13 @@ def run_shard(ctx):
     for x in range(len(gen)):
         for y in range(len(gen)):
             todo.append(("gen", x, y))
+    for ci in range(len(CHAINS[tier])):
+        todo.append(("chain", ci))
 
     # heaviest first so that the shards finish together
     def weight(t):
+        if t[0] == "chain":
+            return 10 ** 6
         if t[0] == "gen":
             return max(gen[t[1]][0], gen[t[2]][0]) * 3
         if t[0] == "cross":
@@ -272,7 +310,10 @@ def run_shard(ctx):
     for idx, t in enumerate(todo):
         if idx % ctx.nshards != ctx.shard:
             continue
-        if t[0] == "gen":
+        if t[0] == "chain":
+            ch = CHAINS[tier][t[1]]
+            ctx.run_case(_M, {"kind": "chain", "n": ch[0], "gap": ch[1], "H": ch[2], "dx": ch[3], "dy": ch[4]}, fn=lambda c, cx: chain_laws(cx, *ch))
+        elif t[0] == "gen":
             ma, mb = gen[t[1]], gen[t[2]]
             res = [None]
             ctx.run_case(_M, {"kind": "gen-pair", "a": list(ma), "b": list(mb)}, fn=lambda c, cx: res.__setitem__(0, generic_pair_laws(cx, ma, mb)))
@@ -379,6 +420,8 @@ def run_case(case, ctx):
         pair_laws(ctx, tup(case["stratum"]), case["S"], case["T"], want_sym=True)
     elif kind == "cross":
         cross_laws(ctx, tup(case["sx"]), tup(case["sy"]), case["S"], case["T"])
+    elif kind == "chain":
+        chain_laws(ctx, int(case["n"]), float(case["gap"]), float(case["H"]), float(case["dx"]), float(case["dy"]))
     elif kind == "gen-pair":
         generic_pair_laws(ctx, tuple(int(v) for v in case["a"]), tuple(int(v) for v in case["b"]), want_sym=True)
     elif kind in ("sym", "triple"):
